@@ -510,8 +510,14 @@ def _run_stream_exchange_sync(
         try:
             req_reader = ValidatedReader(ipc.open_stream(stream), app._server.ipc_validation)
             input_batch, custom_metadata = req_reader.read_next_batch_with_custom_metadata()
-        except pa.ArrowInvalid as exc:
-            raise _RpcHttpError(exc, status_code=HTTPStatus.BAD_REQUEST) from exc
+        except (pa.ArrowInvalid, OSError, StopIteration) as exc:
+            # The body is an in-memory buffer, so nothing here is an I/O failure:
+            # Arrow reports a short message body or an invalid flatbuffer as
+            # OSError, and a stream that ends before its first batch (schema only)
+            # as StopIteration.  All of them are malformed requests; left uncaught
+            # they reached Falcon as a bare 500.
+            cause = RuntimeError("Exchange request carries no batch") if isinstance(exc, StopIteration) else exc
+            raise _RpcHttpError(cause, status_code=HTTPStatus.BAD_REQUEST) from exc
 
         # Extract both tokens before resolution — resolve_external_location
         # replaces metadata with what was stored in the external IPC stream.
